@@ -28,8 +28,8 @@ CHECKS = {
                 text='Generated trees (nested and read-only directories with children, every method, empty files, safe/dangerous links, MacLHA members with valid and near-miss MacBinary envelopes, levels 0-3) are archived directory-first and extracted with the option sets x/e/f/q0-2/v/i/w=, wildcard lists, print, and overwrite policies with scripted prompt answers; contents, permission bits, mtimes, link targets, stdout of p and exit status are compared with the model.',
                 note='Ownership unobservable as nobody; set-id bits are left to OS policy; dangerous links and the mtime of their directories are outside the guarantee (existence is demanded only when the directory is still writable).',
                 design='4/C06'),
-    'C07': dict(level='exploration', technique='runtime monitor of the verdict iff: bytes actually delivered + independent bitwise CRC vs verdicts of check/extract/CLI, over corrupted/truncated variants; exhaustive burst enumeration on a stored member',
-                text='Three independent readers per archive variant (read, check, extract) plus lha t / lha x: the verdict must equal (length and CRC-16 of the delivered bytes match the recorded ones). All bursts of span <= 16 bits at every bit offset of a stored member are enumerated in the thorough tier.',
+    'C07': dict(level='exploration', technique='runtime monitor of the verdict iff: bytes actually delivered + independent bitwise CRC vs verdicts of check/extract/CLI, over corrupted/truncated variants; exhaustive burst enumeration on a stored member; write-fault injection (RLIMIT_FSIZE) judged on the bytes on disk; several operations on the same member',
+                text='Three independent readers per archive variant (read, check, extract) plus lha t / lha x: the verdict must equal (length and CRC-16 of the delivered bytes match the recorded ones). All bursts of span <= 16 bits at every bit offset of a stored member are enumerated in the thorough tier. Extraction under a file size limit placed in the first, a middle and the last stdio block of a member; 255/256/257/512 failing members; check/read/extract sequences on one member.',
                 note='Bursts are measured in the bit order CRC-16/ARC consumes (LSB first per byte). MacBinary members excluded.',
                 design='4/C07'),
     'C08': dict(level='exploration', technique='sanitizers (ASan + memory-access UBSan subset, fatal) and invariant hooks on hostile archives through seeded reader-API call patterns over five stream kinds, and through the ASan-built CLI under an fs guard',
@@ -52,9 +52,9 @@ CHECKS = {
                 text='For a base set of well-formed headers every one of the 255 substitutions at every header byte, every truncation and length-field perturbation is parsed; whenever the independent rules condemn the mutant the library must return no header and iteration must end.',
                 note='One-directional and only for the listed rules; base set is a sample of header shapes.',
                 design='4/C12'),
-    'C13': dict(level='exploration', technique='bounded-progress monitor: stream-callback step counter with deterministic budgets and hard stop, allocator monitor for peak live heap, CPU/wall watchdogs for stdio-backed streams and the CLI',
+    'C13': dict(level='exploration', technique='bounded-progress monitor: stream-callback step counter with deterministic budgets and hard stop, allocator monitor for peak live heap, stdio step counting (--wrap=fread,fseek) for FILE-backed kinds, CPU/wall watchdogs for the CLI incl. extraction over existing files with hostile standard input',
                 text='Liveness is restated as bounded progress: every operation must finish within 2*len(A)+64*(members+1)+4*bytes_out+256 stream callbacks, deliver no more than the declared length, and keep peak library heap below 8 MiB + 2*len(A); checked on every truncation offset of generated archives, extreme length declarations, inputs around the 256 KiB scan limit, self-referential and pm1-endless streams, over 4 stream kinds x 4 operations and the CLI over files and pipes.',
-                note='No finite run decides "eventually returns"; FILE-backed kinds and the CLI are guarded by watchdogs only. A watchdog firing is re-run once before it is reported.',
+                note='No finite run decides "eventually returns"; the CLI is guarded by watchdogs and a bound on bytes of messages. A watchdog firing is re-run once before it is reported; members that really produce more than 64 MiB are abandoned at that cap (work proportional so far) and CLI watchdogs on such inputs are inconclusive.',
                 design='4/C13'),
     'C14': dict(level='exploration', technique='runtime monitor of the decoder API contract: split-invariance against a single maximal read, independent bitwise CRC, progress-callback sequence checker; exhaustive read compositions for short outputs',
                 text='For every (method, stream, declared length) the bytes, reported length/CRC and callback sequence under many read schedules (all 2^(n-1) compositions for short outputs) are compared with one maximal read and an independent CRC.',
@@ -68,9 +68,9 @@ CHECKS = {
                 text='The member list (all header fields, data, verdicts, and a list-only walk) from callbacks-with-skip on the bare archive is the reference; every other stream kind and every prefix class must reproduce it, for corpus, generated and truncated archives.',
                 note='Prefix bytes come from a subset that cannot form a signature across the junction. Real pipes with a writer thread.',
                 design='4/C16'),
-    'C17': dict(level='exploration', technique='runtime differential monitor: library routine vs bitwise CRC-16/ARC definition, exhaustive enumeration of (state,byte) and (state,2 bytes), ASan on random buffers/splits',
+    'C17': dict(level='exploration', technique='runtime differential monitor: library routine vs bitwise CRC-16/ARC definition, exhaustive enumeration of (state,byte) and (state,2 bytes), state-echo buffers, long and 4 GiB buffers, empty pieces, ASan on random buffers/splits',
                 text='Every (16-bit state, byte) pair is executed through lha_crc16_buf and compared with the bitwise definition (exhaustive, 2^24); thorough also runs all 2^32 (state, two-byte) inputs whole and split. Because CRC is a byte-wise state machine, agreement on every single step plus split-invariance on sampled buffers is the strongest observation a run can make of this routine.',
-                note='Trusts the 8-line bitwise reference (cross-checked in C and Python against the published check value 0xBB3D). Buffers longer than 2 bytes are sampled, not enumerated.',
+                note='Trusts the 8-line bitwise reference (cross-checked in C and Python against the published check value 0xBB3D). Buffers longer than 2 bytes are sampled and directed (lengths on 2^k boundaries to 2^26, 2^32 and 2^32+17 in the thorough tier), not enumerated.',
                 design='4/C17'),
     'C18': dict(level='exploration', technique='output-byte monitor over stdout+stderr of the real tool, with every byte value planted in every archive-derived text field (exhaustive single-byte plants)',
                 text='Every byte 0x01..0xFF is planted in names, paths, link targets, user/group strings and the method field (first and later members) across levels; each archive is run through list/test/extract/dry-run/print modes and error paths; every output byte must be printable ASCII, LF, CR or TAB.',
